@@ -9,6 +9,7 @@ code -> spec  random catalogs (uniform / clustered, on tile boundaries) x thresh
         half-tile lattice; TLC reruns the refinement (TraceQuadtree). Single-resolution grids 1..8, shipped California grid,
         arbitrary prefix-free quadkey sets; cell areas against the closed formula.
 """
+import decimal
 import math
 import random
 from fractions import Fraction
@@ -250,6 +251,26 @@ def run(chk, replay=None):
             r = [] if isinstance(r, Raised) else list(numpy.asarray(r).reshape(-1))
             if len(r) != 1 or str(g.quadkeys[int(r[0])]) != q:
                 chk.violation('quadkeys:lookup', {'set': name, 'quadkey': q, 'point': [lon, lat], 'got': [int(x) for x in r]})
+                break
+        # coordinates given as exact numbers (Fraction / Decimal) a hair west of a tile's east edge: closer to the edge than
+        # any double, and still inside the tile
+        for k_ in range(12 if quick else 60):
+            q = rng.choice(qks)
+            t = tiles[q]
+            n = 2 ** t.z
+            east = (t.x + 1) / n * 360.0 - 180.0
+            lat = lat_of(n - (t.y + 1) + 0.5, n)
+            if k_ % 2:
+                lon = Fraction(east) - Fraction(1, 10 ** 25)
+            else:
+                with decimal.localcontext() as ctx_:
+                    ctx_.prec = 60
+                    lon = decimal.Decimal(east) - decimal.Decimal(1).scaleb(-25)
+            r = guarded(g.get_index_of, [lon], [lat])
+            chk.count()
+            r = [] if isinstance(r, Raised) else list(numpy.asarray(r).reshape(-1))
+            if len(r) != 1 or str(g.quadkeys[int(r[0])]) != q:
+                chk.violation('quadkeys:lookup of an exact coordinate', {'set': name, 'quadkey': q, 'point': [str(lon), lat], 'got': [int(x) for x in r]})
                 break
         # many points in one call, some of them in holes of the grid (tiles that are not part of the set) or beyond the
         # latitude limits: the answer lists the containing cell of every point that has one, in order, and nothing else
